@@ -32,6 +32,10 @@
 //	        | (disc L P)       loader_L.Discover(ctx_L, pred P ∧ key used in this line), P = all | qual | type
 //	                                                                → [key*]   (map keys, hex)
 //	        | (reg xNAME N)    px.RegisterResolvableType(alias NAME=Integer[N,N]) — the process-wide list of declared types → ok
+//	        | (addts L xNAME VER (xMEMBER N)*)  px.AddTypes(ctx_L, TypeSet NAME, version 1.0.VER, {MEMBER = Integer[N,N] …}): the
+//	                           members the loader does not know yet are defined in loader_L under NAME::MEMBER, then NAME;
+//	                           NAME and the MEMBERs are identifiers of letters with a capital first; not in (ts …)/(stw) lines
+//	                                                                → ok | reported CODE | fault
 //	        | (rr L)           px.ResolveResolvables(ctx_L): every declared type is defined in loader_L, in order of
 //	                           declaration; the first rejected one ends it (the ones behind it are lost)
 //	                                                                → ok | reported CODE | fault
@@ -172,12 +176,18 @@ type valT struct {
 	sfx  string
 }
 
+type memberT struct {
+	name string
+	n    int64
+}
+
 type stepT struct {
-	op   string
-	l    int
-	name nameT
-	val  valT
-	pred string
+	op      string
+	l       int
+	name    nameT
+	val     valT
+	pred    string
+	members []memberT // addts
 }
 
 type bad struct{ why string }
@@ -222,6 +232,9 @@ func parseVal(e sx.Sexp) valT {
 }
 
 func (v valT) String() string {
+	if v.kind == "tset" {
+		return fmt.Sprintf("(tset %s %d)", sx.Str(v.name), v.n)
+	}
 	if v.kind == "al" {
 		return fmt.Sprintf("(al %s %d)", sx.Str(v.name), v.n)
 	}
@@ -246,6 +259,23 @@ func unsfx(s string) string { return lineSuffix.ReplaceAllString(s, "") }
 
 var stwCounter int64
 
+var tsIdent = regexp.MustCompile(`\A[A-Z][A-Za-z]*\z`)
+
+func anyTrue(bs []bool) bool {
+	for _, b := range bs {
+		if b {
+			return true
+		}
+	}
+	return false
+}
+
+// member of a type set as a loader holds it: the name NAME::MEMBER and the alias NAME::MEMBER = Integer[n,n]
+func (s stepT) member(m memberT) (nameT, valT) {
+	q := s.name.name + "::" + m.name
+	return nameT{ns: "type", name: q, auth: s.name.auth}, valT{kind: "al", name: q, n: m.n}
+}
+
 // canon renders a value handed out by a loader
 func canon(v interface{}) string {
 	if t, ok := v.(px.Type); ok && !lineSuffix.MatchString(t.Name()) {
@@ -261,6 +291,8 @@ func canon(v interface{}) string {
 		}
 	case *types.IntegerType:
 		return fmt.Sprintf("(t %d)", v.Min())
+	case px.TypeSet:
+		return fmt.Sprintf("(tset %s %d)", sx.Str(v.Name()), v.Version().Patch())
 	case px.StringValue:
 		if n, err := strconv.ParseInt(v.String(), 10, 64); err == nil {
 			return fmt.Sprintf("(s %d)", n)
@@ -344,6 +376,29 @@ func parseLine(args []sx.Sexp) (parent []int, forked []bool, steps []stepT, deps
 		l, err := a[0].AsInt()
 		must(err == nil && l >= 0 && int(l) < len(parent), "loader index")
 		st := stepT{op: s.Tag(), l: int(l)}
+		if st.op == "addts" {
+			must(len(a) >= 3 && sfx == "" && !anyTrue(isTS), "addts shape")
+			b, err := a[1].AsBytes()
+			must(err == nil && tsIdent.Match(b), "type set name")
+			ver, err := a[2].AsInt()
+			must(err == nil && ver >= 0, "type set version")
+			st.name = nameT{ns: "type", name: string(b), auth: string(px.RuntimeNameAuthority)}
+			st.val = valT{kind: "tset", name: string(b), n: ver}
+			seen := map[string]bool{}
+			for _, m := range a[3:] {
+				must(m.IsList && len(m.List) == 2, "member")
+				mb, err := m.List[0].AsBytes()
+				must(err == nil && tsIdent.Match(mb) && !seen[strings.ToLower(string(mb))], "member name")
+				seen[strings.ToLower(string(mb))] = true
+				k, err := m.List[1].AsInt()
+				must(err == nil && k >= 0, "member int")
+				st.members = append(st.members, memberT{string(mb), k})
+			}
+			must(len(st.members) > 0, "a type set has members")
+			must(!(hasStatic(args[0]) && st.l == 0), "the static loader is never written")
+			steps = append(steps, st)
+			continue
+		}
 		if st.op == "rr" {
 			must(len(a) == 1, "step arity")
 			must(!(hasStatic(args[0]) && st.l == 0), "the static loader is never written")
@@ -578,12 +633,20 @@ func run(c px.Context, parent []int, forked []bool, ts []bool, steps []stepT, st
 		if (s.op == "def" || s.op == "add" || s.op == "rr") && deps[s.l] != nil {
 			outside = true
 		}
+		if s.op == "addts" && ref.depRoot(s.l) >= 0 {
+			outside = true // its member lookups go through the dependency loader (and may meet a cached miss)
+		}
 	}
 
 	// the names of this line (the universe every observation ranges over), by canonical key
 	names := []nameT{}
 	keys := map[string]bool{}
 	for _, s := range steps {
+		for _, m := range s.members {
+			mn, _ := s.member(m)
+			names = append(names, mn)
+			keys[ref.key(mn)] = true
+		}
 		if s.op != "disc" && s.op != "rr" {
 			names = append(names, s.name)
 			keys[ref.key(s.name)] = true
@@ -761,6 +824,46 @@ func run(c px.Context, parent []int, forked []bool, ts []bool, steps []stepT, st
 				setFail(classOr("redefine-accepted", wantX == "ok"), fmt.Sprintf("%s: a different value for a bound name was accepted", at))
 			case want == "ok" && out != "ok":
 				setFail(classOr("redefine-equal-rejected", wantX == "rejected"), fmt.Sprintf("%s: answered %s where the reference accepts (new binding or equal re-definition)", at, out))
+			case want == "rejected" && !strings.HasPrefix(out, "reported PCORE_ATTEMPT_TO_REDEFINE"):
+				setFail("redefine-accepted", fmt.Sprintf("%s: rejected with %s instead of a reported redefinition error", at, out))
+			}
+			if want == "ok" && out == "ok" {
+				accepted = true
+			}
+		case "addts":
+			var ms []string
+			for _, m := range s.members {
+				ms = append(ms, fmt.Sprintf("%s => Integer[%d,%d]", m.name, m.n, m.n))
+			}
+			src := fmt.Sprintf("TypeSet[{name => '%s', version => '1.0.%d', pcore_version => '1.0.0', types => {%s}}]", s.name.name, s.val.n, strings.Join(ms, ", "))
+			r := safely(func() { px.AddTypes(ctx, ctx.ParseType(src)) })
+			out = r
+			if r == "" {
+				out = "ok"
+			}
+			// the members the loader does not know yet become bound in it, then the type set itself (write-once)
+			want, wantX := "ok", "ok"
+			for _, m := range s.members {
+				mn, mv := s.member(m)
+				if _, known := ref.resolve(s.l, ref.key(mn)); !known && want == "ok" {
+					want = ref.define(s.l, ref.key(mn), mv.String())
+				}
+				if _, known := exact.resolve(s.l, exact.key(mn)); !known && wantX == "ok" {
+					wantX = exact.define(s.l, exact.key(mn), mv.String())
+				}
+			}
+			if want == "ok" {
+				want = ref.define(s.l, ref.key(s.name), s.val.String())
+			}
+			if wantX == "ok" {
+				wantX = exact.define(s.l, exact.key(s.name), s.val.String())
+			}
+			switch {
+			case out == "fault":
+			case want == "rejected" && out == "ok":
+				setFail(classOr("redefine-accepted", wantX == "ok"), fmt.Sprintf("%s: a different type set for a bound name was accepted", at))
+			case want == "ok" && out != "ok":
+				setFail(classOr("redefine-equal-rejected", wantX == "rejected"), fmt.Sprintf("%s: answered %s where the reference accepts", at, out))
 			case want == "rejected" && !strings.HasPrefix(out, "reported PCORE_ATTEMPT_TO_REDEFINE"):
 				setFail("redefine-accepted", fmt.Sprintf("%s: rejected with %s instead of a reported redefinition error", at, out))
 			}
@@ -1193,6 +1296,10 @@ func gen(g *core.G) {
 				local[1] = core.Pick(r, []string{nm("type", "bar", "r"), nm("type", "My::Bar", "r"), nm("type", "foo", "o")})
 			}
 		}
+		if !tsLeaf && !stw && r.Intn(3) == 0 {
+			// names a type set (Zoo, M) and its members provide
+			local[r.Intn(k)] = nm("type", core.Pick(r, []string{"Zoo::Car", "zoo::car", "Zoo", "ZOO::Plane", "M::Car", "M"}), "r")
+		}
 		if dep >= 0 {
 			// names that name a module (or none), one ill-formed
 			local[r.Intn(k)] = core.Pick(r, []string{nm("type", "m::a", "r"), nm("type", "M::A", "r"), nm("type", "n::a", "r"), nm("type", "x::a", "r"), nm("type", "m::1a", "r"), nm("type", "::m::a", "r")})
@@ -1206,6 +1313,9 @@ func gen(g *core.G) {
 			l := r.Intn(nl)
 			x := local[r.Intn(k)]
 			op := r.Intn(12)
+			if !tsLeaf && !stw && r.Intn(12) == 0 {
+				op = 12
+			}
 			if static && !stw && l == 0 && (op < 6 || op == 9 || op == 11) {
 				op = 6 + r.Intn(3) // the static loader is only asked
 			}
@@ -1229,6 +1339,12 @@ func gen(g *core.G) {
 				steps = append(steps, fmt.Sprintf("(reg %s %d)", core.Pick(r, []string{"x61", "x41", "x62", "x6d3a3a61"}), 1+r.Intn(2)))
 			case 11:
 				steps = append(steps, fmt.Sprintf("(rr %d)", l))
+			case 12:
+				if static && l == 0 {
+					l = 1 + r.Intn(nl-1)
+				}
+				ms := core.Pick(r, []string{"(x436172 1)", "(x436172 2)", "(x506c616e65 1)", "(x436172 1) (x506c616e65 2)", "(x506c616e65 2) (x436172 1)"})
+				steps = append(steps, fmt.Sprintf("(addts %d %s %d %s)", l, core.Pick(r, []string{"x5a6f6f", "x5a6f6f", "x4d"}), r.Intn(2), ms))
 			}
 		}
 		g.Emit("hist (tree " + strings.Join(tree, " ") + ") (steps " + strings.Join(steps, " ") + ")")
@@ -1239,6 +1355,8 @@ func gen(g *core.G) {
 		"hist (tree (p -1)) (steps (load 0 (n type xc3 r)))", "hist (tree (p -1)) (steps (add 0 xff 1))",
 		"hist (tree (p -1) (stw)) (steps)", "hist (tree (stw)) (steps (reg x6120 1))", "hist (tree (st)) (steps (rr 0))", "hist (tree (p -1)) (steps (rr 1))",
 		"hist (tree (p -1)) (steps (reg x61))", "hist (tree (stw) (ts 0)) (steps)",
+		"hist (tree (p -1)) (steps (addts 0 x5a6f6f 0))", "hist (tree (p -1)) (steps (addts 0 x7a6f6f 0 (x436172 1)))", "hist (tree (p -1)) (steps (addts 0 x5a6f6f 0 (x436172 1) (x434152 2)))",
+		"hist (tree (p -1) (ts 0)) (steps (addts 0 x5a6f6f 0 (x436172 1)))", "hist (tree (stw)) (steps (addts 0 x5a6f6f 0 (x436172 1)))", "hist (tree (st) (p 0)) (steps (addts 0 x5a6f6f 0 (x436172 1)))",
 		"hist (tree) (steps)", "hist (tree (p 0)) (steps)", "hist (tree (f -1)) (steps)", "hist (tree (p -1)) (steps (load 1 " + names[0] + "))",
 		"hist (tree (p -1)) (steps (frob 0))", "hist (tree (p -1))", "nop", "hist (tree (p -1)) (steps (def 0 " + names[0] + " (q 1)))",
 		"hist (tree (p -1)) (steps (disc 0 none))", "hist (tree (p -1)) (steps (load 0 (n type zz r)))",
